@@ -263,6 +263,12 @@ func agree(pr *interp.PathResult, nr *NativeResult) (bool, string) {
 	switch pr.Outcome {
 	case interp.OutOK:
 		if nr.Outcome != "ok" {
+			if len(pr.Failures) > 0 && (nr.Outcome == "panic" || nr.Outcome == "hang") && len(nr.Failures) > 0 {
+				// the engine ended the path at an assertion that fails on every input of
+				// the path; the native run records the same failure, carries on in the
+				// corrupted state and may crash later: compare what both observed
+				break
+			}
 			return false, fmt.Sprintf("engine ok, native %s (%s)", nr.Outcome, nr.Msg)
 		}
 	case interp.OutPanic:
@@ -282,6 +288,9 @@ func agree(pr *interp.PathResult, nr *NativeResult) (bool, string) {
 		// an assertion failed on this path: the engine stops where the failing side
 		// is the only feasible one, the native run carries on
 		nr = &NativeResult{Obs: nr.Obs[:len(pr.Obs)]}
+	}
+	if len(pr.Failures) > 0 && len(nr.Obs) < len(pr.Obs) && nr.Outcome != "ok" {
+		pr = &interp.PathResult{Obs: pr.Obs[:len(nr.Obs)]}
 	}
 	if len(pr.Obs) != len(nr.Obs) {
 		return false, fmt.Sprintf("observation count: engine %d native %d", len(pr.Obs), len(nr.Obs))
